@@ -44,11 +44,12 @@ class Program:
             raise AnalysisBroken('anchor function %s not found' % name)
         return f
 
-    def cfg(self, name):
+    def cfg(self, name, lower_ternary=False):
+        """lower_ternary: `return c ? a : b`, `x = c ? a : b` become branches, so that a rule sees the same graph as for if/else"""
         f = self.fn(name) if not isinstance(name, dict) else name
-        key = (f['unit'], f['name'])
+        key = (f['unit'], f['name'], id(f), lower_ternary)
         if key not in self._cfgs:
-            self._cfgs[key] = CFG(f, self.noreturn)
+            self._cfgs[key] = CFG(f, self.noreturn, lower_ternary=lower_ternary)
         return self._cfgs[key]
 
     def all_functions(self):
